@@ -7,6 +7,7 @@ import z3
 
 from . import source
 from .interp import (
+    OneShotList,
     Builtin,
     Closure,
     ExcClass,
@@ -202,7 +203,16 @@ class World:
                     return self.global_value(I, imp[1][1:], imp[2])
                 if imp[0] == "from":
                     key = (imp[1], imp[2])
-                    if key in self.ext:
+                    if key == ("collections", "ChainMap"):
+                        import collections
+
+                        def chainmap(I, *maps):
+                            if not all(isinstance(m_, (dict, collections.ChainMap)) for m_ in maps):
+                                raise OutOfSubset("ChainMap over symbolic mappings")
+                            return collections.ChainMap(*maps)
+
+                        return Builtin("ChainMap", chainmap)
+                    if key in self.ext and self.ext[key] is not None:
                         return self.ext[key]
                     raise OutOfSubset(f"external name {imp[1]}.{imp[2]} has no model")
                 if imp[0] == "mod":
@@ -213,7 +223,7 @@ class World:
             return self.builtins[name]
         raise OutOfSubset(f"unknown global {name} in module {mod}")
 
-    ext = {}
+    ext = {("collections", "ChainMap"): None}
     ext_modules = {}
 
     # ---------------------------------------------------------------- builtins
@@ -289,16 +299,19 @@ class World:
         def _enumerate(I, x, start=0):
             seq = I.iterable(x)
             if isinstance(seq, list):
-                return [(i + start, v) for i, v in enumerate(seq)]
+                return OneShotList([(i + start, v) for i, v in enumerate(seq)])
             if seq.guards:
                 seq = self.materialize(I, seq).stream(I)
-            return Stream(seq.length, None, [], lambda i: (ZV(i + start, "int"), seq.elem_at(I, i)))
+            seq = seq.consume()
+            r = Stream(seq.length, None, [], lambda i: (ZV(i + start, "int"), seq.elem_at(I, i)))
+            r.oneshot = True
+            return r
 
         @reg("zip")
         def _zip(I, *xs):
             seqs = [I.iterable(x) for x in xs]
             if all(isinstance(s, list) for s in seqs):
-                return [tuple(t) for t in zip(*seqs)]
+                return OneShotList([tuple(t) for t in zip(*seqs)])
             ss = []
             for s in seqs:
                 if isinstance(s, list):
@@ -306,39 +319,45 @@ class World:
                 if s.guards:
                     s = self.materialize(I, s).stream(I)
                 ss.append(s)
+            ss = [s.consume() for s in ss]
             n = ss[0].length
             for s in ss[1:]:
                 n = z3.If(s.length < n, s.length, n)
-            return Stream(n, None, [], lambda i: tuple(s.elem_at(I, i) for s in ss))
+            r = Stream(n, None, [], lambda i: tuple(s.elem_at(I, i) for s in ss))
+            r.oneshot = True
+            return r
 
         @reg("reversed")
         def _reversed(I, x):
             seq = I.iterable(x)
             if isinstance(seq, list):
-                return list(reversed(seq))
+                return OneShotList(list(reversed(seq)))
             if seq.guards:
                 seq = self.materialize(I, seq).stream(I)
+            seq = seq.consume()
             n = seq.length
-            return Stream(n, None, [], lambda i: seq.elem_at(I, n - 1 - i))
+            r = Stream(n, None, [], lambda i: seq.elem_at(I, n - 1 - i))
+            r.oneshot = True
+            return r
 
         @reg("list")
         def _list(I, x=()):
             seq = I.iterable(x)
             if isinstance(seq, list):
                 return list(seq)
-            return self.materialize(I, seq)
+            return self.materialize(I, seq.consume())
 
         @reg("tuple")
         def _tuple(I, x=()):
             seq = I.iterable(x)
             if isinstance(seq, list):
                 return tuple(seq)
-            return self.materialize(I, seq)
+            return self.materialize(I, seq.consume())
 
         @reg("set")
         def _set(I, x=()):
             seq = I.iterable(x)
-            return self.make_set(I, seq)
+            return self.make_set(I, seq.consume() if isinstance(seq, Stream) else seq)
 
         @reg("frozenset")
         def _frozenset(I, x=()):
@@ -369,7 +388,7 @@ class World:
                 for v in seq:
                     acc = I.binop(ast.Add(), acc, v)
                 return acc
-            return self.sum_stream(I, seq)
+            return self.sum_stream(I, seq.consume())
 
         @reg("sorted")
         def _sorted(I, x, key=None, reverse=False):
@@ -382,8 +401,11 @@ class World:
         def _map(I, f, x):
             seq = I.iterable(x)
             if isinstance(seq, list):
-                return [I.call(f, [v]) for v in seq]
-            return Stream(seq.length, None, seq.guards, lambda i: I.call(f, [seq.elem(i)]))
+                return OneShotList([I.call(f, [v]) for v in seq])
+            seq = seq.consume()
+            r = Stream(seq.length, None, seq.guards, lambda i: I.call(f, [seq.elem(i)]))
+            r.oneshot = True
+            return r
 
         @reg("bool")
         def _bool(I, x=False):
@@ -424,6 +446,10 @@ class World:
 
     def build_tuple(self, I, elts):
         raise OutOfSubset("tuple display with a starred symbolic sequence")
+
+    def super_of(self, I, obj, qual):
+        """`super()` inside method `qual` called on obj: an object whose attribute access continues after the class."""
+        raise OutOfSubset(f"super() in {qual}")
 
     def type_of(self, I, x):
         raise OutOfSubset("type(x) needs a typed world")
@@ -495,6 +521,17 @@ class World:
                 return BoundMethod("sort", lambda I, key=None, reverse=False: self.list_sort(I, obj, key, reverse))
             if name == "copy":
                 return BoundMethod("copy", lambda I: list(obj))
+        import collections.abc as _abc
+
+        if isinstance(obj, _abc.Mapping) and not isinstance(obj, dict):
+            if name == "items":
+                return BoundMethod("items", lambda I: list(obj.items()))
+            if name == "keys":
+                return BoundMethod("keys", lambda I: list(obj.keys()))
+            if name == "values":
+                return BoundMethod("values", lambda I: list(obj.values()))
+            if name == "get":
+                return BoundMethod("get", lambda I, k, d=None: obj.get(k, d))
         if isinstance(obj, dict):
             if name == "get":
                 return BoundMethod("get", lambda I, k, d=None: obj.get(k, d))
@@ -521,6 +558,9 @@ class World:
             if name == "startswith":
                 return BoundMethod("startswith", lambda I, p: obj.startswith(p))
         return None
+
+    def stream_attr(self, I, stream, name):
+        raise OutOfSubset(f"attribute {name} of a symbolic list")
 
     def list_sort(self, I, lst, key, reverse):
         raise OutOfSubset("list.sort needs a typed world")
